@@ -159,7 +159,9 @@ class Agent(metaclass=ABCMeta):
                 if itr_event in relevant_events:
                     continue
                 relevant_events.append(itr_event)
-            elif self._time < itr_event.time or fpe_equals(itr_event.time, self._time):
+            elif self._time < itr_event.time:
+                # [NOTE]: An event scheduled exactly at the current time was already applied at the end
+                #   of the previous propagation; keeping it would apply it a second time.
                 relevant_events.append(itr_event)
         self.propagate_event_queue = relevant_events
 
